@@ -26,6 +26,7 @@ type BSBlock struct {
 	Wrong   bool     `json:"wrong"`   // the CID is computed from other bytes (mismatching pair)
 	Version int      `json:"version"` // default CID variant
 	Codec   uint64   `json:"codec"`
+	MhLen   int      `json:"mh_len,omitempty"` // truncated digest length, 0 = the function's full length
 }
 
 // BSOp is one blockstore call.
@@ -48,7 +49,7 @@ type BSCase struct {
 	Ops      []BSOp    `json:"ops"`
 }
 
-const c15Rule = "rapid-generated sequences of blockstore calls (Put, PutMany, Get, Has, GetSize, DeleteBlock, HashOnRead on/off), each with a live or an already cancelled context, over blocks of 0..200 bytes (+70 KiB) addressed by CIDv0/v1 x raw/dag-pb/dag-cbor x sha2-256/sha2-512/blake2b-256/identity built with Prefix.Sum, CID variants of one multihash used interchangeably, deliberately mismatching (data, CID) pairs, 8..12 index bits so blocks share buckets, optionally with the periodic flusher running; " +
+const c15Rule = "rapid-generated sequences of blockstore calls (Put, PutMany, Get, Has, GetSize, DeleteBlock, HashOnRead on/off), each with a live or an already cancelled context, over blocks of 0..200 bytes (+70 KiB) addressed by CIDv0/v1 x raw/dag-pb/dag-cbor x sha2-256/sha2-512/blake2b-256/identity (sha2 digests also truncated, one length per function and case) built with Prefix.Sum, CID variants of one multihash used interchangeably, deliberately mismatching (data, CID) pairs, 8..12 index bits so blocks share buckets, optionally with the periodic flusher running; " +
 	"oracle = map keyed by multihash (first Put wins, duplicates silent) + contract clauses: same CID and bytes back, Has/GetSize agree with Get, delete => ipld.IsNotFound, unknown => IsNotFound, cancelled context => error and no effect (verified by later reads), hash-on-read enabled => ErrWrongHash exactly for stored bytes that do not hash to the requested CID, disabled => bytes returned; " +
 	"non-trivial = >=2 CID variants of one multihash used, a delete of a present block, HashOnRead toggled in both directions; distinct = distinct canonical JSON of the case"
 
@@ -62,6 +63,13 @@ func genBS(t *rapid.T) BSCase {
 	c.Started = weighted(t, "started", []int{2, 1}) == 1
 	nb := rapid.IntRange(2, 24).Draw(t, "nblocks")
 	idLen := rapid.IntRange(4, 12).Draw(t, "idlen") // identity-addressed blocks share one length (prefix-free digests)
+	trunc := map[uint64]int{}
+	if weighted(t, "truncated", []int{3, 1}) == 1 {
+		trunc[mh.SHA2_256] = []int{20, 16, 28}[rapid.IntRange(0, 2).Draw(t, "mhlen256")]
+	}
+	if weighted(t, "truncated512", []int{3, 1}) == 1 {
+		trunc[mh.SHA2_512] = []int{20, 32, 48}[rapid.IntRange(0, 2).Draw(t, "mhlen512")]
+	}
 	for i := 0; i < nb; i++ {
 		var b BSBlock
 		b.Hash = []uint64{mh.SHA2_256, mh.SHA2_512, mh.BLAKE2B_MIN + 31, mh.IDENTITY}[weighted(t, "hash", []int{6, 2, 1, 2})]
@@ -80,9 +88,14 @@ func genBS(t *rapid.T) BSCase {
 			b.Data[0], b.Data[1] = byte(i), byte(i>>8)
 		}
 		b.Wrong = b.Hash != mh.IDENTITY && weighted(t, "wrong", []int{5, 1}) == 1
+		// A multihash may carry a truncated digest (Prefix.MhLength). All blocks
+		// of one function share the length: the index key is the digest, and a
+		// full digest next to its own truncation would break the prefix-free
+		// precondition of the index.
+		b.MhLen = trunc[b.Hash]
 		b.Codec = bsCodecs[weighted(t, "codec", []int{3, 2, 1})]
 		b.Version = 1
-		if b.Hash == mh.SHA2_256 && weighted(t, "v0", []int{3, 1}) == 1 {
+		if b.Hash == mh.SHA2_256 && b.MhLen == 0 && weighted(t, "v0", []int{3, 1}) == 1 {
 			b.Version, b.Codec = 0, cid.DagProtobuf
 		}
 		c.Blocks = append(c.Blocks, b)
@@ -128,11 +141,18 @@ func cidFor(b BSBlock, idx, variant int) cid.Cid {
 	if b.Wrong {
 		src = append([]byte("other bytes "), byte(idx), byte(idx>>8))
 	}
-	h, err := mh.Sum(src, b.Hash, -1)
+	mhLen := -1
+	if b.MhLen > 0 {
+		mhLen = b.MhLen
+	}
+	h, err := mh.Sum(src, b.Hash, mhLen)
 	if err != nil {
 		panic(infraError{fmt.Errorf("mh.Sum(%x): %w", b.Hash, err)})
 	}
 	version, codec := b.Version, b.Codec
+	if b.MhLen > 0 && version == 0 {
+		version, codec = 1, cid.DagProtobuf // CIDv0 is full-length sha2-256 only
+	}
 	switch variant {
 	case 1:
 		codec = cid.Raw
@@ -141,7 +161,7 @@ func cidFor(b BSBlock, idx, variant int) cid.Cid {
 		codec = cid.DagCBOR
 		version = 1
 	case 3:
-		if b.Hash == mh.SHA2_256 {
+		if b.Hash == mh.SHA2_256 && b.MhLen == 0 {
 			version, codec = 0, cid.DagProtobuf
 		} else {
 			version, codec = 1, cid.DagProtobuf
